@@ -2,14 +2,9 @@
 """drop findings that were fixed in /repo (a union merge re-adds them)"""
 import json
 k = json.load(open('/verif/known_findings.json'))
-<<<<<<< HEAD
-gone = {('C13', 'U1:uncompress-of-all-default-nest'), ('C13', 'Y2:fromYAMLfile-drops-tensor-name'),
-        ('C20', 'decode:B-rank-drops-imposed-shape'), ('C20', 'size:assert-on-empty-fiber'), ('C20', 'scan:C-over-U-payload-handle'), ('C11', 'iop:ishl:elem<-nonelem:ret-none:spec'),
-=======
 gone = {('C13', 'Y1:yaml-load-of-tuple-coordinates'), ('C13', 'Y3:default-not-carried-by-dict-or-yaml'),
         ('C13', 'U1:uncompress-of-all-default-nest'), ('C13', 'Y2:fromYAMLfile-drops-tensor-name'),
-        ('C20', 'decode:B-rank-drops-imposed-shape'), ('C11', 'iop:ishl:elem<-nonelem:ret-none:spec'),
->>>>>>> d3919e39f2e6fc37082738bc71453009968dcd58
+        ('C20', 'decode:B-rank-drops-imposed-shape'), ('C20', 'size:assert-on-empty-fiber'), ('C20', 'scan:C-over-U-payload-handle'), ('C11', 'iop:ishl:elem<-nonelem:ret-none:spec'),
         ('C11', 'iop:ishl:elem<-elem:ret-none:spec'), ('C10', 'F.unflattenRanks:alias:payloads'), ('C14', 'swizzle:formats-mutable-dropped'), ('C14', 'swap:shape-dropped'), ('C14', 'swap:empty-branch:stale-shape'), ('C14', 'unflatten:default-dropped'), ('C09', 'unflatten:default-dropped'), ('C17', 'buffet:stale-shape'), ('C17', 'cache:stale-shape'), ('C08', 'nonuniform:min-of-empty-inds'), ('C09', 'unflatten:depth>0:empty-fiber:IndexError')}
 k['findings'] = [f for f in k['findings'] if (f['property'], f['signature']) not in gone
                  and 'updatePayloads' not in f['signature'] and not f['signature'].startswith('U1t')]
